@@ -48,6 +48,10 @@ def check(ctx: Ctx):
     from ..rules import support
 
     support.check_track_accessors(ctx)
+    from ..rules import support as _sup_r12
+
+    _sup_r12.check_loop_targets_not_rebound(ctx, "droplets.droplet_tracks.DropletTrackList.from_emulsion_time_course", "time_course", "EFFECT", "frame-as-given",
+                                            "the tracks then hold other droplets (wrapped, filtered or re-ordered copies) than the frames of the time course, or the droplets carry another time")
     ctx.expect("ACCESSOR", 4)
     ctx.expect("METRIC", 4)
     ctx.expect("STRICT", 1)
